@@ -18,9 +18,9 @@ for id in "$@"; do
   grep -A1 '^VIOLATION' "$D/.out.$id" | head -${SHOW:-4}
   [ $rc -eq 2 ] && tail -5 "$D/.out.$id"
 done
+# drop the mutant's cached library builds: they are keyed by the tree's content hash but point at this scratch path,
+# so a later run on the same patch (new scratch path) must not find them
+TH=$(VERIF_REPO="$D" python3 -c 'import sys; sys.path.insert(0, "lib"); import vcommon; print(vcommon.tree_hash())' 2>/dev/null)
 rm -rf "$D"
-# drop the mutant's cached library builds
-python3 - <<PY
-import os, shutil, sys
-sys.path.insert(0, "lib")
-PY
+[ -n "$TH" ] && [ "$TH" != "$(python3 -c 'import sys; sys.path.insert(0, "lib"); import vcommon; print(vcommon.tree_hash())' 2>/dev/null)" ] && rm -rf "build/lib/$TH"
+exit 0
